@@ -262,6 +262,53 @@ needles_from (const unsigned char *ph, size_t n)
       for (int k = 0; k < 8; k++) t[k] = w[7 - k];
       add_needle (t);                                     /* byte-swapped 64-bit word */
     }
+  if (n > 64)
+    {
+      /* key equivalents: HMAC replaces a key longer than its block by the key's digest, so SHA-1(phrase) and
+         SHA-256(phrase) are what an HMAC-based method really keys with (the library erases its own copies, tk and
+         khash, and the pads made from them).  Computed with the library's own digest code, when it is visible.  */
+      static void (*s1i) (void *);
+      static void (*s1p) (const void *, void *, size_t);
+      static void *(*s1f) (void *, void *);
+      static void (*s256) (const void *, size_t, unsigned char *);
+      static int looked;
+      if (!looked)
+        {
+          looked = 1;
+          s1i = (void (*) (void *)) dlsym (lib, "_crypt_sha1_init_ctx");
+          s1p = (void (*) (const void *, void *, size_t)) dlsym (lib, "_crypt_sha1_process_bytes");
+          s1f = (void *(*) (void *, void *)) dlsym (lib, "_crypt_sha1_finish_ctx");
+          s256 = (void (*) (const void *, size_t, unsigned char *)) dlsym (lib, "_crypt_SHA256_Buf");
+        }
+      unsigned char d[64];
+      int have = 0;
+      if (s1i && s1p && s1f)
+        {
+          static unsigned char ctxbuf[1024] __attribute__ ((aligned (16)));
+          s1i (ctxbuf); s1p (ph, ctxbuf, n); s1f (ctxbuf, d);
+          memset (ctxbuf, 0, sizeof ctxbuf);
+          have = 20;
+        }
+      for (int pass = 0; pass < 2; pass++)
+        {
+          if (pass == 1)
+            {
+              if (!s256)
+                break;
+              s256 (ph, n, d);
+              have = 32;
+            }
+          for (int o = 0; o + 8 <= have && o <= 8; o += 8)
+            {
+              add_needle (d + o);
+              for (int k = 0; k < 8; k++) t[k] = d[o + k] ^ 0x36;
+              add_needle (t);
+              for (int k = 0; k < 8; k++) t[k] = d[o + k] ^ 0x5c;
+              add_needle (t);
+            }
+        }
+      memset (d, 0, sizeof d);
+    }
 }
 static int
 scan_region (const unsigned char *p, size_t n)
